@@ -12,16 +12,22 @@ open DNA
 section
 variable (D : List (String × DE)) (o : Opts) (useInts : Bool)
 
+/-- The decision `x` sits under the node's own key: its id, or (when the id is no key of `D`) its
+name — the two places `_get_decision` looks at, in this order. -/
+def ownKeyOk (id : List Tok) (name : Option String) (x : DV) : Prop :=
+  dictGet D (renderId id) = some (.one x) ∨
+  (dictGet D (renderId id) = none ∧ ∃ nm, name = some nm ∧ dictGet D nm = some (.one x))
+
 /-- Where the decision `x` of the node bound to `dp` is found in `D`. -/
 def lookupOk (dp : Dp) (x : DV) : Prop :=
   match dp.sub with
-  | none => dictGet D (renderId dp.id) = some (.one x)
+  | none => ownKeyOk D dp.id dp.name x
   | some idx =>
     if o.multi = 1 then
       dictGet D (renderId dp.id) = none ∧ (∀ nm, dp.name = some nm → dictGet D nm = none) ∧
       ∃ xs, dictGet D (renderId (dp.parentId.getD [])) = some (.many xs) ∧ xs.length = dp.arity ∧
         xs[idx]? = some x
-    else dictGet D (renderId dp.id) = some (.one x)
+    else ownKeyOk D dp.id dp.name x
 
 mutual
   /-- The dictionary holds the decision of every bound node of the tree, and the value style can
@@ -36,8 +42,8 @@ mutual
              choiceIndex useInts dp.lits dp.n (fmtChoice o dp i (BDNA.mk v bound cs).erase) = some i.toNat)
        | some dp, v' =>
          dp.kind ≠ .choice →
-           dictGet D (renderId dp.id) =
-             some (.one (if o.valueType == 1 then .dna (BDNA.mk v bound cs).erase else .val v'))
+           ownKeyOk D dp.id dp.name
+             (if o.valueType == 1 then .dna (BDNA.mk v bound cs).erase else .val v')
        | none, _ => True) ∧ GoodL cs
   def GoodL : List BDNA → Prop
     | [] => True
@@ -54,6 +60,13 @@ theorem GoodL_getElem : ∀ (bs : List BDNA) (j : Nat) (b : BDNA), GoodL D o use
 theorem getDecision_found {id : String} {name : Option String} {e : DE} (h : dictGet D id = some e) :
     getDecision D id name = (some e, D) := by
   simp [getDecision, h]
+
+theorem getDecision_own {id : List Tok} {name : Option String} {x : DV} (h : ownKeyOk D id name x) :
+    getDecision D (renderId id) name = (some (.one x), D) := by
+  rcases h with h | ⟨h1, nm, h2, h3⟩
+  · exact getDecision_found D h
+  · subst h2
+    simp [getDecision, h1, h3]
 
 theorem getDecision_missing {id : String} {name : Option String} (h : dictGet D id = none)
     (hn : ∀ nm, name = some nm → dictGet D nm = none) : getDecision D id name = (none, D) := by
@@ -102,7 +115,8 @@ theorem fromDictChoice_node (info : Info) (n : Nat) (cands : List (List Point)) 
     cases parent with
     | none =>
       rw [hpar] at hlook
-      rw [← hid, getDecision_found D hlook]
+      simp only at hlook
+      rw [← hid, ← hname, getDecision_own D hlook]
     | some p =>
       obtain ⟨pid, k, idx⟩ := p
       obtain ⟨hsub, hpid, har⟩ := hpar
@@ -118,7 +132,7 @@ theorem fromDictChoice_node (info : Info) (n : Nat) (cands : List (List Point)) 
         rw [getDecision_found D h3]
         simp [h4, har, h5]
       · simp only [hm, if_false] at hlook
-        rw [← hid, getDecision_found D hlook]
+        rw [← hid, ← hname, getDecision_own D hlook]
   unfold fromDictChoiceWith
   rw [hr]
   generalize hx' : fmtChoice o dp i (.mk (.int i) ks) = x at *
@@ -294,7 +308,7 @@ theorem fromDict_leaf (pre : List Tok) (p : Point) (hp : ∀ k c d s i, p ≠ .c
           simp only [validP, Bool.and_eq_true] at hv
           have hlook := hg.1 (by simp)
           simp only [fromDictP]
-          rw [getDecision_found D hlook]
+          rw [getDecision_own D hlook]
           by_cases hvt : (o.valueType == 1) = true
           · simp [hvt, BDNA.erase, eraseList, unboundList, DNA.value, hv.1, hv.2]
           · simp [hvt, hv.1, hv.2]
